@@ -44,7 +44,10 @@ RULE = (
     "1 / 1.0 / True or (1,2) / [1,2] occur).  Non-trivial = the history contains a make/get that stored data, "
     "followed by a lineage-affecting change, followed by a later get_array.  keys: non-trivial = the mutation "
     "changes the reference lineage of at least one but not of all data types.  xproc: non-trivial = the batch "
-    "contains a nested dict or a numpy / immutabledict value.  distinct = distinct descriptor hashes."
+    "contains a nested dict or a numpy / immutabledict value.  distinct = distinct descriptor hashes.  Histories "
+    "that meet the shape of a recorded finding (F4, F0230, F0231) are continued on a route around it (registration "
+    "through new_context / a new context object / the as-is answer of the fuzzy lookup), checked to the end and then "
+    "counted under excluded_known; one history in eight is left unsteered."
 )
 ASSUMPTIONS = [
     "NUMBA_DISABLE_JIT=1 for all workers: the numba helpers are not the subject of this property",
@@ -330,7 +333,8 @@ def st_fuzzy(draw):
         ff = draw(st.lists(st.integers(0, 5), min_size=1, max_size=2, unique=True))
     if shape in ("ffo", "both"):
         ffo = draw(st.lists(st.integers(0, len(R.ALL_OPTIONS) - 2), min_size=1, max_size=3, unique=True))
-    return dict(ff=ff, ffo=ffo)
+    # aim: 1 = also name the option that changed the lineage last, 2 = a data type of the class that changed last
+    return dict(ff=ff, ffo=ffo, aim=draw(st.sampled_from([0, 0, 1, 1, 2, 3])) if shape != "off" else 0)
 
 
 @st.composite
@@ -341,10 +345,50 @@ def st_init(draw):
                 changes=draw(st.lists(st.tuples(st.integers(0, len(R.SLOTS) - 1), st_change()).map(list), max_size=2)))
 
 
+# options / slots that are (in the base graph) part of the lineage of each data type index
+RELEVANT_OPTS = {0: [0], 1: [2, 4, 0], 2: [5, 4, 2, 0], 3: [6, 2, 4, 0], 4: [6, 2, 4, 0], 5: [8, 9, 4, 0]}
+RELEVANT_SLOTS = {0: [0], 1: [1, 0], 2: [2, 1, 0], 3: [3, 1, 0], 4: [3, 1, 0], 5: [4, 0]}
+OFF = dict(op="fuzzy", how="set_context_config", ff=[], ffo=[], aim=0)
+
+
+@st.composite
+def st_motif(draw):
+    """Short aligned op sequences that put the history into the regions the property talks about: stored data, then
+    a change of exactly one part of the lineage, then a (fuzzy) read."""
+    ti = draw(st.integers(0, 5))
+    o = draw(st.sampled_from(RELEVANT_OPTS[ti]))
+    how = draw(st.sampled_from(["set_context_config", "item", "new_context"]))
+    kind = draw(st.sampled_from(["fuzzy_option", "fuzzy_type", "revisit", "near_miss", "fuzzy_kwargs"]))
+    setv = dict(op="set_config", opt=o, val=draw(st_value(0)), mode="update")
+    mk = dict(op=draw(st.sampled_from(["make", "get"])), t=ti)
+    if kind == "fuzzy_option":
+        return [mk, setv, dict(op="fuzzy", how=how, ff=[], ffo=[o], aim=0), dict(op="get", t=ti),
+                dict(op="get2", t=ti), OFF, dict(op="get", t=ti)]
+    if kind == "fuzzy_kwargs":
+        return [mk, setv, dict(op="get", t=ti, kw=dict(ff=[], ffo=[o], aim=0)), dict(op="get", t=ti)]
+    if kind == "near_miss":
+        other = draw(st.sampled_from([x for x in range(10) if x != o]))
+        return [mk, setv, dict(op="fuzzy", how=how, ff=[], ffo=[other], aim=0), dict(op="get", t=ti), OFF]
+    if kind == "revisit":
+        back = dict(op="set_config", opt=o, val=draw(st_value(0)), mode="update")
+        return [back, mk, setv, dict(op="get", t=ti), back, dict(op="get", t=ti), dict(op="get2", t=ti)]
+    si = draw(st.sampled_from(RELEVANT_SLOTS[ti]))
+    change = dict(op="register", slot=si, change={draw(st.sampled_from(["version", "name"])): draw(st.integers(0, 3))},
+                  via="new_context")
+    if draw(st.booleans()):
+        change = dict(op="bump", cls=si, ver=draw(st.integers(0, 3)))
+    ui = {0: 0, 1: 1, 2: 2, 3: draw(st.sampled_from([3, 4])), 4: 5}[si]
+    return [mk, change, dict(op="fuzzy", how=how, ff=[ui], ffo=[], aim=0), dict(op="get", t=ti), dict(op="get2", t=ti),
+            OFF, dict(op="get", t=ti)]
+
+
 @st.composite
 def st_history(draw):
-    return dict(init=draw(st_init()), ops=draw(st.lists(st_op(), min_size=3, max_size=30)),
-                seed=draw(st.integers(0, 10 ** 6)), nosteer=draw(st.integers(0, 7)) == 0)
+    parts = draw(st.lists(st.one_of(st_op().map(lambda o: [o]), st_op().map(lambda o: [o]), st_motif()),
+                          min_size=2, max_size=14))
+    ops = [o for p in parts for o in p][:30]
+    return dict(init=draw(st_init()), ops=ops, seed=draw(st.integers(0, 10 ** 6)),
+                nosteer=draw(st.integers(0, 7)) == 0)
 
 
 def state_from_init(init):
@@ -386,7 +430,10 @@ class History:
         self.seen_loose = {}
         self.classes = set()
         self.tags = []  # facts about the history that identify recorded findings, prefixed to violation messages
-        self.f4_types = set()
+        self.stale = {}  # finding -> data types whose cached plugin is stale (recorded findings F4, F0231)
+        self.steered = set()  # recorded findings this history was steered around (-> Excluded at the end)
+        self.last_opt = None  # option / slot of the latest lineage-affecting change (fuzzy ops may aim at them)
+        self.last_slot = None
         self.step = -1
         self.op = None
         # non-triviality bookkeeping
@@ -401,8 +448,8 @@ class History:
     # -- reporting ------------------------------------------------------------------------------------
     def fail(self, clause, t, detail):
         tags = list(self.tags)
-        if self.f4_types:
-            tags.append("F4-shape types=" + ",".join(sorted(self.f4_types)))
+        for f, ts in sorted(self.stale.items()):
+            tags.append(f"{f}-shape types=" + ",".join(sorted(ts)))
         raise Violation(clause, "".join(f"[{x}]" for x in tags) + f" t={t} step={self.step} op={json.dumps(self.op)} "
                         + (detail if isinstance(detail, str) else repr(detail)))
 
@@ -420,13 +467,13 @@ class History:
             out += R.PROVIDES[s]
         return out
 
-    def f31_shaped(self, item, lin, key, ffs, ffo):
-        """Recorded finding F31: the fuzzy comparison is between the json-decoded stored lineage (lists) and the
+    def f0230_shaped(self, item, lin, key, ffs, ffo):
+        """Recorded finding F0230: the fuzzy comparison is between the json-decoded stored lineage (lists) and the
         in-memory lineage (tuples), so data that must match is refused when a tuple is left after filtering."""
         return bool((ffs or ffo) and item["dir"] != key and R.match3(item["lin"], lin, ffs, ffo) == "yes"
                     and R.lineage_has_tuple(R.filter_lineage(lin, ffs, ffo)))
 
-    def stored_answer(self, state, t, key, honour_f31=False):
+    def stored_answer(self, state, t, key, honour_f0230=False):
         """'yes' / 'no' / 'either' for is_stored(t) under `state` (fuzzy settings included)."""
         ffs, ffo = self.fuzzy(state)
         lin = R.lineage(state, t)
@@ -435,7 +482,7 @@ class History:
             if it["t"] != t:
                 continue
             m = R.match3(it["lin"], lin, ffs, ffo)
-            if honour_f31 and m == "yes" and self.f31_shaped(it, lin, key, ffs, ffo):
+            if honour_f0230 and m == "yes" and self.f0230_shaped(it, lin, key, ffs, ffo):
                 m = "no"
             if m == "yes":
                 return "yes"
@@ -443,7 +490,7 @@ class History:
                 ans = "either"
         return ans
 
-    def admissible(self, state, t, keys, honour_f31=False):
+    def admissible(self, state, t, keys, honour_f0230=False):
         """Set of row tuples get_array(t) may return under `state`: stored data that must / may be accepted, else
         the current plugin applied to an admissible input."""
         ffs, ffo = self.fuzzy(state)
@@ -453,7 +500,7 @@ class History:
             if it["t"] != t:
                 continue
             m = R.match3(it["lin"], lin, ffs, ffo)
-            if honour_f31 and m == "yes" and self.f31_shaped(it, lin, keys[t], ffs, ffo):
+            if honour_f0230 and m == "yes" and self.f0230_shaped(it, lin, keys[t], ffs, ffo):
                 m = "no"
             if m == "yes":
                 yes.append(it)
@@ -463,7 +510,7 @@ class History:
         if not yes:
             spec = state["classes"][state["reg"][R.SLOT_OF[t]]]
             if spec["deps"]:
-                for dep_rows in self.admissible(state, spec["deps"][0], keys, honour_f31):
+                for dep_rows in self.admissible(state, spec["deps"][0], keys, honour_f0230):
                     out.add(tuple(R.compute_from(state, t, list(dep_rows))))
             else:
                 out.add(tuple(R.compute_from(state, t, None)))
@@ -505,10 +552,13 @@ class History:
                 self.classes.add("skip_is_stored_unstorable_fuzzy")
                 continue
             want = self.stored_answer(state, t, keys[t])
-            if fuzzy_on and want != self.stored_answer(state, t, keys[t], honour_f31=True):
-                if self.steer:
-                    raise Excluded("F31")
-                self.tags.append("F31-shape")
+            self.tags = []
+            if fuzzy_on and want != self.stored_answer(state, t, keys[t], honour_f0230=True):
+                if self.steer:  # expect what the recorded finding makes of it, count the history as excluded
+                    self.steered.add("F0230")
+                    want = self.stored_answer(state, t, keys[t], honour_f0230=True)
+                else:
+                    self.tags = ["F0230-shape"]
             got = self.ctx.is_stored(RUN, t)
             if want == "yes" and not got:
                 self.fail("is_stored.false_although_matching_data_exists", t, f"fuzzy={state['ff']},{state['ffo']} "
@@ -520,6 +570,7 @@ class History:
                 self.classes.add("is_stored_either")
             elif fuzzy_on and got and keys[t] not in self.dirs:
                 self.classes.add("is_stored_by_fuzzy_match")
+        self.tags = []
         ls = self.listing()
         if ls != self.dirs:
             self.fail("store.directory_changed_without_compute", "-", f"{sorted(ls)} vs {sorted(self.dirs)}")
@@ -543,8 +594,10 @@ class History:
         R.do_set_config(self.state, [(o, op["val"])], op["mode"])
         self.ctx.set_config({o: R.build(op["val"])}, mode=op["mode"])
         if cfg_before != json.dumps({k: R.loose(v) for k, v in self.state["config"].items()}, sort_keys=True):
-            self.f4_types.clear()  # the context hash changed: cached plugins are dropped
+            self.stale.clear()  # the context hash changed: cached plugins are dropped
         changed = self.note_change(before)
+        if changed:
+            self.last_opt = o
         tracked = o in ("s_t", "a_t", "sh", "b_t", "c_t", "a_t_child", "ch_t")
         kind = "shared" if o == "sh" else "child" if o == "a_t_child" else "overridden_parent" if o == "a_t" else \
             "free" if o == "zz_free" else "tracked" if tracked else "untracked"
@@ -570,21 +623,24 @@ class History:
         f4 = op["via"] == "inplace" and same_hash and (affected or deps_changed)
         if f4:
             # recorded finding F4: the plugin cache is not invalidated by this registration
-            if self.steer:
-                raise Excluded("F4")
-            affected = affected | {u for g in (state, trial) for u in R.registered_types(g)
-                                   if slot in R.ancestors_slots(g, R.SLOT_OF[u])}
-            self.f4_types |= affected
+            if self.steer:  # register through new_context instead (no warm cache), count the history as excluded
+                self.steered.add("F4")
+                op = dict(op, via="new_context")
+            else:
+                affected = affected | {u for g in (state, trial) for u in R.registered_types(g)
+                                       if slot in R.ancestors_slots(g, R.SLOT_OF[u])}
+                self.stale.setdefault("F4", set()).update(affected)
         elif op["via"] == "inplace" and not same_hash:
-            self.f4_types.clear()  # version / compressor are part of the context hash
+            self.stale.clear()  # version / compressor are part of the context hash
         ci = R.do_register(state, spec)
         cls = make_class(state, ci, self.built)
         if op["via"] == "inplace":
             self.ctx.register(cls)
         else:
             self.ctx = self.ctx.new_context(register=[cls])
-            self.f4_types.clear()
-        self.note_change(before)
+            self.stale.clear()
+        if self.note_change(before):
+            self.last_slot = slot
         what = sorted(k for k in op["change"] if k in ("name", "version", "default", "deps", "comp"))
         self.classes.add("register_" + "+".join(what) + ("_new" if old is None else ""))
         self.classes.add(f"register_{op['via']}_{'affects' if affected else 'neutral'}")
@@ -597,14 +653,23 @@ class History:
         before = self.lineage_snapshot()
         registered = ci in state["reg"].values()
         if spec["version"] != ver and registered:
-            self.f4_types.clear()
+            self.stale.clear()
         is_base = any(s.get("base") == ci and cj in state["reg"].values() for cj, s in enumerate(state["classes"]))
         spec["version"] = ver
         make_class(state, ci, self.built).__version__ = ver
         changed = self.note_change(before)
         if changed and not registered and is_base:
-            self.tags.append("bump-of-unregistered-parent-of-child")
+            # recorded finding F0231: the context hash only covers the versions of REGISTERED classes, the lineage of a
+            # child plugin also holds the version of its (here: no longer registered) parent class
+            if self.steer:  # continue on a new context object (no warm cache), count the history as excluded
+                self.steered.add("F0231")
+                self.ctx = self.ctx.new_context()
+                self.stale.clear()
+            else:
+                self.stale.setdefault("F0231", set()).update(changed)
             self.classes.add("bump_unregistered_parent")
+        if changed:
+            self.last_slot = spec["slot"]
         self.classes.add("bump_" + ("changes_lineage" if changed else "no_lineage_change"))
 
     def op_new_context(self, op):
@@ -612,14 +677,25 @@ class History:
         before = self.lineage_snapshot()
         R.do_set_config(self.state, items)
         self.ctx = self.ctx.new_context(config={o: R.build(v) for o, v in items})
-        self.f4_types.clear()
+        self.stale.clear()
         self.note_change(before)
         self.classes.add("new_context")
 
-    def op_fuzzy(self, op):
+    def resolve_fuzzy(self, f):
         types = self.types()
-        ff = [types[i % len(types)] for i in op["ff"]]
-        ffo = [R.ALL_OPTIONS[i % (len(R.ALL_OPTIONS) - 1)] for i in op["ffo"]]
+        ff = [types[i % len(types)] for i in f["ff"]]
+        ffo = [R.ALL_OPTIONS[i % (len(R.ALL_OPTIONS) - 1)] for i in f["ffo"]]
+        aim = f.get("aim", 0)
+        if aim & 1 and self.last_opt and self.last_opt != "zz_free" and self.last_opt not in ffo:
+            ffo.append(self.last_opt)
+        if aim & 2 and self.last_slot and self.last_slot in self.state["reg"]:
+            t = R.PROVIDES[self.last_slot][0]
+            if t not in ff:
+                ff.append(t)
+        return ff, ffo
+
+    def op_fuzzy(self, op):
+        ff, ffo = self.resolve_fuzzy(op)
         self.state["ff"], self.state["ffo"] = ff, ffo
         if op["how"] == "set_context_config":
             self.ctx.set_context_config(dict(fuzzy_for=tuple(ff), fuzzy_for_options=tuple(ffo)))
@@ -628,7 +704,7 @@ class History:
             self.ctx.context_config["fuzzy_for_options"] = tuple(ffo)
         else:
             self.ctx = self.ctx.new_context(fuzzy_for=tuple(ff), fuzzy_for_options=tuple(ffo))
-            self.f4_types.clear()
+            self.stale.clear()
         self.classes.add("fuzzy_" + ("off" if not (ff or ffo) else "for" if not ffo else "options" if not ff else "both"))
 
     def op_compute(self, op, keys):
@@ -639,8 +715,8 @@ class History:
         call_state = state
         kw = {}
         if op.get("kw") is not None:
-            call_state = dict(state, ff=[types[i % len(types)] for i in op["kw"]["ff"]],
-                              ffo=[R.ALL_OPTIONS[i % (len(R.ALL_OPTIONS) - 1)] for i in op["kw"]["ffo"]])
+            ff, ffo = self.resolve_fuzzy(op["kw"])
+            call_state = dict(state, ff=ff, ffo=ffo)
             kw = dict(fuzzy_for=tuple(call_state["ff"]), fuzzy_for_options=tuple(call_state["ffo"]))
         fuzzy_on = bool(call_state["ff"] or call_state["ffo"])
         if not all(R.storable(R.lineage(state, u)) for u in self.closure_types(t)):
@@ -648,12 +724,14 @@ class History:
             return
         if fuzzy_on:
             want = self.admissible(call_state, t, keys)
-            if want != self.admissible(call_state, t, keys, honour_f31=True) or any(
-                    self.f31_shaped(it, R.lineage(call_state, it["t"]), keys[it["t"]], *self.fuzzy(call_state))
+            if want != self.admissible(call_state, t, keys, honour_f0230=True) or any(
+                    self.f0230_shaped(it, R.lineage(call_state, it["t"]), keys[it["t"]], *self.fuzzy(call_state))
                     for it in self.stored if it["t"] in self.closure_types(t)):
-                if self.steer:
-                    raise Excluded("F31")
-                self.tags.append("F31-shape")
+                if self.steer:  # accept what the recorded finding makes of it, count the history as excluded
+                    self.steered.add("F0230")
+                    want = want | self.admissible(call_state, t, keys, honour_f0230=True)
+                else:
+                    self.tags = ["F0230-shape"]
         else:
             want = {tuple(R.rows_of(state, t))}
             # data of an ambiguous twin (say stored under a_t=1, now a_t=1.0) has identical rows by construction
@@ -705,6 +783,9 @@ class History:
             self.stored.append(dict(t=u, dir=name, lin=R.lineage(state, u), rows=R.rows_of(state, u)))
             self.stored_something = True
         self.dirs = ls
+        self.tags = []
+        if not fuzzy_on and not new:
+            self.classes.add("reused_stored_data")
         self.classes.add(op["op"] + ("_fuzzy" if fuzzy_on else "") + ("_computed" if new else "_nothing_written"))
         if op.get("kw") is not None:
             self.classes.add("get_with_fuzzy_kwargs")
@@ -727,9 +808,8 @@ class History:
             else:
                 self.op_compute(op, keys)
             keys = self.check_state()
-        n_reuse = sum(1 for c in self.classes if c.endswith("_nothing_written"))
-        if n_reuse:
-            self.classes.add("reused_stored_data")
+        if self.steered:
+            raise Excluded(sorted(self.steered)[0])
         return dict(nt=self.nt, classes=sorted(self.classes))
 
 
@@ -821,9 +901,30 @@ def st_xproc(draw):
     for _ in range(draw(st.integers(6, 12))):
         init = draw(st_init())
         init["cfg"] += draw(st.lists(st.tuples(st.integers(0, len(R.ALL_OPTIONS) - 1), st_value(0.4)).map(list),
-                                     max_size=4))
+                                     min_size=1, max_size=4))
         batch.append(init)
     return dict(batch=batch, seeds=[draw(st.integers(0, 10 ** 6)) for _ in range(3)])
+
+
+def enum_xproc(tier, seed):
+    """A case costs three interpreter start-ups, so there are only a few of them: with one Hypothesis example per
+    shard every shard would get the same (simplest) example.  Instead all shards draw the same seeded sequence of
+    examples from the strategy, drop the first (trivial) ones and share the rest."""
+    from hypothesis import HealthCheck, Phase, given, settings
+    from hypothesis import seed as hseed
+    n = max(1, int({"quick": 8, "thorough": 64}[tier] * float(os.environ.get("VERIF_SCALE", "1"))))
+    skip = 4
+    out = []
+
+    @hseed(int.from_bytes(f"C02-xproc-{seed}".encode(), "big") % (2 ** 60))
+    @settings(max_examples=n + skip, deadline=None, database=None, phases=[Phase.generate], derandomize=False,
+              suppress_health_check=list(HealthCheck))
+    @given(st_xproc())
+    def collect(d):
+        out.append(d)
+
+    collect()
+    return out[skip:skip + n] if len(out) > skip else out
 
 
 def child_main():
@@ -885,10 +986,19 @@ def run_xproc(d):
 # ----------------------------------------------------------------------------------------------------
 # recorded findings
 # ----------------------------------------------------------------------------------------------------
-def _f4_types(message):
-    if "[F4-shape types=" not in message:
-        return None
-    return set(message.split("[F4-shape types=", 1)[1].split("]", 1)[0].split(","))
+def _stale_types(message, finding):
+    tag = f"[{finding}-shape types="
+    if tag not in message or " t=" not in message:
+        return None, None
+    return set(message.split(tag, 1)[1].split("]", 1)[0].split(",")), message.split(" t=", 1)[1].split(" ", 1)[0]
+
+
+STALE_BUCKETS = (
+    "clause:key.differs_from_fresh_context", "clause:get.rows_differ_from_reference",
+    "clause:get.differs_from_fresh_context_on_empty_storage", "clause:store.written_under_non_current_key",
+    "clause:is_stored.false_although_matching_data_exists", "clause:is_stored.true_without_matching_data",
+    "clause:key.differs_for_identical_lineage", "clause:key.same_for_different_lineage",
+    "clause:get.rows_not_admissible_under_fuzzy")
 
 
 @signature("F4_plugin_cache_survives_reregistration")
@@ -896,22 +1006,32 @@ def _sig_f4(sub, desc, bucket, message):
     """Context.register on a context whose plugin cache is warm, with a class that leaves (version, compressor)
     of the data type unchanged but differs in class name / tracked default / depends_on: _context_hash does not
     change, the cached plugin of the OLD class keeps being used for this type and its descendants."""
-    types = _f4_types(message)
-    if sub != "history" or not types or " t=" not in message:
-        return False
-    t = message.split(" t=", 1)[1].split(" ", 1)[0]
-    return t in types and bucket in (
-        "clause:key.differs_from_fresh_context", "clause:get.rows_differ_from_reference",
-        "clause:get.differs_from_fresh_context_on_empty_storage", "clause:store.written_under_non_current_key",
-        "clause:is_stored.false_although_matching_data_exists", "clause:is_stored.true_without_matching_data",
-        "clause:key.differs_for_identical_lineage", "clause:key.same_for_different_lineage")
+    types, t = _stale_types(message, "F4")
+    return sub == "history" and bool(types) and t in types and bucket in STALE_BUCKETS
+
+
+@signature("F0231_plugin_cache_survives_bump_of_unregistered_parent")
+def _sig_f0231(sub, desc, bucket, message):
+    """In-place __version__ bump of a class that is the base of a registered child plugin but is itself not (or no
+    longer) registered: the child's lineage holds the parent's version, _context_hash does not."""
+    types, t = _stale_types(message, "F0231")
+    return sub == "history" and bool(types) and t in types and bucket in STALE_BUCKETS
+
+
+@signature("F0230_fuzzy_match_compares_json_lists_with_tuples")
+def _sig_f0230(sub, desc, bucket, message):
+    """Fuzzy matching compares the json-decoded stored lineage with the in-memory one: a tuple-valued tracked option
+    outside the fuzzy parts never matches, data that differs only in the fuzzy parts is refused."""
+    return sub == "history" and "[F0230-shape]" in message and bucket in (
+        "clause:is_stored.false_although_matching_data_exists", "clause:get.rows_not_admissible_under_fuzzy")
 
 
 SUBCHECKS = [
     SubCheck("history", run_history, strategy=st_history, quick=400, thorough=12000, min_per_shard=5,
-             sample_cap=6000),
-    SubCheck("keys", run_keys, strategy=st_keys, quick=3000, thorough=60000),
-    SubCheck("xproc", run_xproc, strategy=st_xproc, quick=16, thorough=96, min_per_shard=1, sample_cap=4000),
+             sample_cap=6000, required_classes=("reused_stored_data", "is_stored_by_fuzzy_match")),
+    SubCheck("keys", run_keys, strategy=st_keys, quick=3000, thorough=60000,
+             required_classes=("changes_some_not_all",)),
+    SubCheck("xproc", run_xproc, enumerate=enum_xproc, sample_cap=4000),
 ]
 
 if __name__ == "__main__":
